@@ -91,3 +91,80 @@ def ctor_records_every_ref(ctx, rule):
                                    "can neither end the link nor cancel a pending asynchronous evaluation" % (" and ".join("%s is %s" % x for x in inner)),
                      key=sp_.qualname + "::conditional-ref-recording",
                      input="P(x=coro_fn_without_dependencies); p.x = 'plain' while pending -> the stale async result overwrites 'plain'")
+
+
+def flush_model(ctx, rule):
+    """Abstract interpretation of Parameters._batch_call_watchers on small
+    queues: every queued watcher runs exactly once, in (precedence, queue
+    position) order, with one event per watched parameter that has one -- the
+    LAST queued event for that (name, what); events raised while a queued
+    watcher runs are delivered in a further round."""
+    import itertools
+    from engine.absint import Interp, Obj, Unsupported
+    from engine.loader import AnalysisError
+    fl = ctx.repo.func(P + "Parameters._batch_call_watchers")
+
+    def mk_watchers():
+        return {
+            "w1": Obj("w1", precedence=0, parameter_names=["a"], what="value", queued=False, onlychanged=True),
+            "w2": Obj("w2", precedence=-1, parameter_names=["a", "b"], what="value", queued=False, onlychanged=False),
+            "w3": Obj("w3", precedence=0, parameter_names=["b"], what="value", queued=True, onlychanged=True),
+            "w4": Obj("w4", precedence=1, parameter_names=["a"], what="value", queued=False, onlychanged=True),
+        }
+    event_seqs = [["a1"], ["a1", "b1"], ["a1", "b1", "a2"], ["b1", "a1"], ["a1", "a2"]]
+    n, bad = 0, []
+    for evnames in event_seqs:
+        for r in (1, 2, 3):
+            for order in itertools.permutations(["w1", "w2", "w3", "w4"], r):
+                ws = mk_watchers()
+                events = [Obj(e, name=e[0], what="value", id=e) for e in evnames]
+                ns = Obj("ns", _events=list(events), _state_watchers=[ws[k] for k in order], _TRIGGER=False, self_or_cls=Obj("owner"))
+                runs = []
+                cascade = {"done": False}
+
+                def hook(fn, args, kwargs):
+                    if fn.endswith("._update_event_type"):
+                        return args[1]
+                    if fn == "_batch_call_watchers":
+                        return Obj("scope")
+                    if fn.endswith("._execute_watcher"):
+                        if not (len(args) == 2 and isinstance(args[0], Obj) and isinstance(args[1], (list, tuple)) and all(isinstance(e, Obj) for e in args[1])):
+                            raise AnalysisError("flush model: _execute_watcher is called with arguments the model cannot follow (%r)" % (args,))
+                        runs.append((args[0].name, [e.attrs["id"] for e in args[1]]))
+                        # a queued watcher assigns `c` while it runs: raised once
+                        if args[0].name == "w3" and not cascade["done"]:
+                            cascade["done"] = True
+                            ns.attrs["_events"].append(Obj("c1", name="c", what="value", id="c1"))
+                            ns.attrs["_state_watchers"].append(wc)
+                        return None
+                    return NotImplemented
+                wc = Obj("wc", precedence=0, parameter_names=["c"], what="value", queued=False, onlychanged=True)
+                it = Interp(ctx.hier, call_hook=hook)
+                try:
+                    outs = it.run_all(fl, {"self_": ns})
+                except Unsupported as e:
+                    raise AnalysisError("absint cannot interpret the flush: %s -- %s cannot decide" % (e, rule))
+                n += 1
+                if any(o.imprecise for o in outs) or len(outs) != 1:
+                    raise AnalysisError("absint imprecise on the flush (%s): %s" % (order, outs[0].notes[:2]))
+                last = {}
+                for e in evnames:
+                    last[e[0]] = e
+                expect = []
+                for k in sorted(order, key=lambda k: (ws[k].attrs["precedence"], order.index(k))):
+                    evs = [last[nm] for nm in ws[k].attrs["parameter_names"] if nm in last]
+                    expect.append((k, evs))
+                if "w3" in order:
+                    expect.append(("wc", ["c1"]))
+                leftover = len(ns.attrs["_events"]) + len(ns.attrs["_state_watchers"])
+                if runs != expect or leftover:
+                    bad.append((list(order), evnames, runs, expect, leftover))
+    ctx.abstract_cases += n
+    if bad:
+        order, evnames, runs, expect, leftover = bad[0]
+        ctx.fail(rule, fl, fl.node, "flush model: with queued watchers %s (w2 has precedence -1, w4 +1) and queued events %s the flush runs %s, specification %s%s" % (
+            order, evnames, runs, expect, "; %d item(s) left in the queues" % leftover if leftover else ""), key=fl.qualname + "::flush-model",
+            input="two watchers of one parameter with different precedence, queued in the other order inside a batch")
+    else:
+        ctx.ok(rule, fl, fl.node, "%d abstract queue configurations: each queued watcher runs once, in (precedence, queue position) order, with the last event per watched parameter; "
+                                  "events raised by a queued watcher are delivered in a further round; queues end empty" % n)
